@@ -445,17 +445,17 @@ theorem libEnv_parse_hybrid_unadopted (o : Oracle) (code : String) (x : List Str
         | none => .error .panic) = _
   unfold parseOutcome; rw [hacc]; simp only; rw [hl]
 
-/-- the driver's service (`libEnv o`: hybrid tables adopted from the implementation) IS this service
-whenever the adopted tables are the model's: the model's table where the model parses successfully (`h`),
-and NO table where the model's hybrid arm panics on biodivine's name / size check (`hbad`: the server stored
-an error, the harness adopted nothing) -/
-theorem libEnv_eq_hybEnv (Lf : Nat → Bio.Lib T) (dumpf : Nat → T → List Node) (o : Oracle)
-    (h : ∀ code a r, parseHybrid Lf dumpf (parseKey .hybrid code) code = .ok (a, r) →
+/-- PER SUBMITTED CODE: the driver's service (`libEnv o`: hybrid tables adopted from the implementation) answers the
+parse of `code` as this service does whenever the adopted table for `code` is the model's: the model's table if the
+model parses `code` successfully (`h`), NO table if the model's hybrid arm panics on biodivine's name / size check
+(`hbad`: the server stored an error, the harness adopted nothing) -/
+theorem libEnv_eq_hybEnv_at (Lf : Nat → Bio.Lib T) (dumpf : Nat → T → List Node) (o : Oracle) (code : String)
+    (h : ∀ a r, parseHybrid Lf dumpf (parseKey .hybrid code) code = .ok (a, r) →
       lookupS (parseKey .hybrid code) o.hyb = some a)
-    (hbad : ∀ code x, conditions code = .ok x → bioVarsOK x.1 = false →
+    (hbad : ∀ x, conditions code = .ok x → bioVarsOK x.1 = false →
       lookupS (parseKey .hybrid code) o.hyb = none) :
-    ∀ p code, (libEnv o).parse p code = (hybEnv Lf dumpf).parse p code := by
-  intro p code
+    ∀ p, (libEnv o).parse p code = (hybEnv Lf dumpf).parse p code := by
+  intro p
   cases p with
   | naive => rfl
   | hybrid =>
@@ -467,11 +467,22 @@ theorem libEnv_eq_hybEnv (Lf : Nat → Bio.Lib T) (dumpf : Nat → T → List No
       cases hv : bioVarsOK x.1 with
       | true =>
         obtain ⟨a, ha, _⟩ := parseHybrid_of_conditions_ok Lf dumpf (parseKey .hybrid code) code x hc hv
-        rw [libEnv_parse_hybrid_ok o code x a hc (h code a _ ha)]
+        rw [libEnv_parse_hybrid_ok o code x a hc (h a _ ha)]
         exact ha.symm
       | false =>
-        rw [libEnv_parse_hybrid_unadopted o code x hc (hbad code x hc hv)]
+        rw [libEnv_parse_hybrid_unadopted o code x hc (hbad x hc hv)]
         exact (parseHybrid_rejects_of_bad_names Lf dumpf _ code x hc hv).symm
+
+/-- the form for ALL codes at once.  VACUOUS (third review): `o.hyb` is a finite association list and `parseKey` is
+injective, but infinitely many codes parse successfully, so no oracle satisfies `h`; kept only as a corollary of
+`libEnv_eq_hybEnv_at`, which is the usable statement -/
+theorem libEnv_eq_hybEnv (Lf : Nat → Bio.Lib T) (dumpf : Nat → T → List Node) (o : Oracle)
+    (h : ∀ code a r, parseHybrid Lf dumpf (parseKey .hybrid code) code = .ok (a, r) →
+      lookupS (parseKey .hybrid code) o.hyb = some a)
+    (hbad : ∀ code x, conditions code = .ok x → bioVarsOK x.1 = false →
+      lookupS (parseKey .hybrid code) o.hyb = none) :
+    ∀ p code, (libEnv o).parse p code = (hybEnv Lf dumpf).parse p code :=
+  fun p code => libEnv_eq_hybEnv_at Lf dumpf o code (h code) (hbad code) p
 
 /-- **whatever the service's parse function returns denotes the submitted text - BOTH parsing
 strategies**. Naive parsing: fewer than 2^64 − 2 statements (`hn`); hybrid parsing: the biodivine
